@@ -45,8 +45,9 @@ def wrappers(kind, base):
             continue
         out.append((f'ElementVector({n})', (lambda c=c: E.ElementVector(c()))))
         out.append((f'ElementDG({n})', (lambda c=c: E.ElementDG(c()))))
-    if kind in ('tri', 'quad'):
-        out.append((f'ElementVector({pick[1]},3)', (lambda c=cs[1]: E.ElementVector(c(), 3))))
+    # component count different from the spatial dimension
+    ncomp = {'line': 2, 'tri': 3, 'quad': 3, 'tet': 2, 'hex': 2, 'wedge': 2}[kind]
+    out.append((f'ElementVector({pick[-1] if kind == "wedge" else pick[1]},{ncomp})', (lambda c=cs[-1 if kind == 'wedge' else 1], n=ncomp: E.ElementVector(c(), n))))
     if len(cs) >= 2:
         out.append((f'{pick[1]}*{pick[0]}', (lambda a=cs[1], b=cs[0]: a() * b())))
         out.append((f'ElementVector({pick[1]})*{pick[0]}', (lambda a=cs[1], b=cs[0]: E.ElementVector(a()) * b())))
